@@ -24,22 +24,21 @@ Proof. vm_compute. repeat split; reflexivity. Qed.
 Lemma dispatch_unknown_is_fallback : dispatch (s_of "no-such-heuristic") = Fallback.
 Proof. vm_compute. reflexivity. Qed.
 
-Lemma no_silent_constant : forall name, In name doc_names -> surrogate_name name = false ->
-  dispatch name <> Fallback.
+(* NO documented name falls through to the warning + constant branch (no exemption: surrogate names must reach the
+   surrogate scorer) *)
+Lemma no_silent_constant : forall name, In name doc_names -> dispatch name <> Fallback.
 Proof.
-  assert (H : forallb (fun h => surrogate_name h || negb (scorer_eqb (dispatch h) Fallback)) doc_names = true)
+  assert (H : forallb (fun h => negb (scorer_eqb (dispatch h) Fallback)) doc_names = true)
     by (vm_compute; reflexivity).
-  rewrite forallb_forall in H. intros name Hin Hs E. specialize (H name Hin).
-  rewrite Hs, E in H. simpl in H. discriminate H.
+  rewrite forallb_forall in H. intros name Hin E. specialize (H name Hin).
+  rewrite E in H. simpl in H. discriminate H.
 Qed.
 
-(* the hypothesis of [no_silent_constant] is satisfiable: documented non-surrogate names exist,
-   and the default of --heuristic is one of them *)
+(* the quantifier is not empty, and the default of --heuristic is a documented name *)
 Lemma doc_names_nonvacuous :
-  In (s_of "MI-numba-randomized") doc_names /\ surrogate_name (s_of "MI-numba-randomized") = false /\
-  existsb (fun h => negb (surrogate_name h)) doc_names = true.
+  In (s_of "MI-numba-randomized") doc_names /\ (2 <= length doc_names)%nat.
 Proof.
-  split; [|split; vm_compute; reflexivity].
+  split; [|vm_compute; repeat constructor].
   apply smem_in. vm_compute. reflexivity.
 Qed.
 
@@ -57,4 +56,32 @@ Qed.
 Lemma numba_family_plain : forall h, dispatch h = NumbaMI false -> h <> s_of "MI-numba-randomized".
 Proof.
   intros h H E. subst h. revert H. vm_compute. discriminate.
+Qed.
+
+(* the no-scoring shortcut of mixed_rank_graph is taken exactly for the name the dispatch maps to Const (all strings) *)
+Lemma const_branch_iff : forall h, is_const_name h = true <-> dispatch h = Const.
+Proof.
+  intros h. split.
+  - unfold is_const_name. intros E.
+    repeat match type of E with
+           | negb _ = true => apply negb_true_iff in E
+           end.
+    apply seqb_eq in E. subst h. vm_compute. reflexivity.
+  - unfold dispatch.
+    repeat match goal with |- context [if ?c then _ else _] => destruct c eqn:? end;
+      intros H; try discriminate H.
+    all: unfold is_const_name; assumption.
+Qed.
+
+(* 3MR mode ('3mr' in the name) is only ever combined with the plain numba estimator among the known names *)
+Lemma three_mr_names_plain :
+  (forall name, In name doc_names -> is_3mr_name name = true -> dispatch name = NumbaMI false) /\
+  is_3mr_name (s_of "MI-numba-3mr") = true /\ is_3mr_name (s_of "MI-numba-randomized") = false /\
+  is_3mr_name (s_of "MI") = false /\ is_3mr_name (s_of "Constant") = false.
+Proof.
+  split; [|vm_compute; repeat split; reflexivity].
+  assert (H : forallb (fun h => negb (is_3mr_name h) || scorer_eqb (dispatch h) (NumbaMI false)) doc_names = true)
+    by (vm_compute; reflexivity).
+  rewrite forallb_forall in H. intros name Hin E. specialize (H name Hin). rewrite E in H. simpl in H.
+  destruct (dispatch name) as [| | |[|]| | | |]; simpl in H; try discriminate H; reflexivity.
 Qed.
